@@ -23,7 +23,9 @@ EXPLANATION = (
     'R-C10.4 (write-back) after the batch loop, under "migrating", every '
     'app signature gets applied_migrations from the migration table; '
     'R-C10.5 every comparison against an UpgradeMethod member is by value (==, !=, in), never by identity: stored signatures come back with equal, not identical, strings; '
-    'R-C10.6 the container recorded up front receives no plan-derived targets (or is a snapshot / restored); R-C10.7 to_mark_applied is published whether or not a migration is pending; R-C10.8 the batch builder simulates pending mutations on the real signature under no condition but their existence (the earlier `if migrating:` clause of R-C10.3/.4 was dropped as not necessary).')
+    'R-C10.6 the container recorded up front receives no plan-derived targets (or is a snapshot / restored); R-C10.7 to_mark_applied is published whether or not a migration is pending; R-C10.8 the batch builder simulates pending mutations on the real signature under no condition but their existence (the earlier `if migrating:` clause of R-C10.3/.4 was dropped as not necessary).'
+    ' '
+    'R-C10.9 no mutation constructor replaces a falsy argument by a non-empty default (`param or [...]`): an explicitly empty mark_applied is honoured.')
 NOT_DECIDED = (
     'Which migrations are recorded/executed for every start state (depends '
     'on Django\'s loader/executor and on the database).')
@@ -521,7 +523,76 @@ def r8_batch_simulation_unconditional(ctx):
     ctx.floor('generate_mutations_info calls in the batch builder', n, 1)
 
 
+def _non_empty_default(e):
+    if isinstance(e, (ast.List, ast.Tuple, ast.Set)):
+        return bool(e.elts)
+    if isinstance(e, ast.Dict):
+        return bool(e.keys)
+    if isinstance(e, ast.Constant):
+        return e.value not in (None, False, 0, '', b'')
+    if isinstance(e, ast.Call) and call_name(e) in ('set', 'list', 'tuple',
+                                                    'frozenset', 'dict'):
+        return bool(e.args) and _non_empty_default(e.args[0])
+    return False
+
+
+def r9_explicit_empty_honoured(ctx):
+    """MoveToDjangoMigrations(mark_applied=[...]) names the migrations the
+    evolutions already cover; an explicitly empty list ("none of them") is a
+    legal value and must reach self.mark_applied unchanged.  `param or
+    [<default>]` replaces it by the default, so 0001_initial is recorded as
+    applied and never run.  Checked for every constructor of the mutation
+    classes: a parameter is never combined with a non-empty default through
+    a truthiness test."""
+    ctx.rule('R-C10.9')
+    p = ctx.program
+    n_init, n_or = 0, 0
+    for m in p.modules.values():
+        if not m.name.startswith('django_evolution.mutations'):
+            continue
+        for c in m.classes.values():
+            init = c.methods.get('__init__')
+            if init is None:
+                continue
+            n_init += 1
+            params = set(init.params) - {'self'}
+            for n in walk_no_nested(init.node):
+                cand = None
+                if isinstance(n, ast.BoolOp) and isinstance(n.op, ast.Or) and \
+                        isinstance(n.values[0], ast.Name) and \
+                        n.values[0].id in params and \
+                        _non_empty_default(n.values[-1]):
+                    cand = (n.values[0].id, n.values[-1])
+                if isinstance(n, ast.IfExp) and isinstance(n.test, ast.Name) \
+                        and n.test.id in params and \
+                        _non_empty_default(n.orelse):
+                    cand = (n.test.id, n.orelse)
+                if isinstance(n, ast.If) and isinstance(n.test, ast.UnaryOp) \
+                        and isinstance(n.test.op, ast.Not) and \
+                        isinstance(n.test.operand, ast.Name) and \
+                        n.test.operand.id in params:
+                    for st in n.body:
+                        if isinstance(st, ast.Assign) and \
+                                _non_empty_default(st.value):
+                            cand = (n.test.operand.id, st.value)
+                if cand:
+                    n_or += 1
+                    ctx.finding(init, n, '%s.__init__ replaces a falsy `%s` '
+                                'by the non-empty default %s: an explicitly '
+                                'empty value is a legal argument and is '
+                                'silently turned into the default' % (
+                                    c.name, cand[0],
+                                    ' '.join(unparse(cand[1]).split())),
+                                key='explicit-empty-replaced:%s' % cand[0])
+    ctx.floor('constructors of mutation classes', n_init, 10)
+    if not n_or:
+        ctx.ok(('django_evolution.mutations', '*'),
+               'no mutation constructor replaces a falsy argument by a '
+               'non-empty default')
+
+
 def run(ctx):
+    r9_explicit_empty_honoured(ctx)
     r8_batch_simulation_unconditional(ctx)
     r7_applied_list_always_published(ctx)
     r6_recorded_list_is_only_mark_applied(ctx)
